@@ -17,5 +17,5 @@ for id in "$@"; do
   go tool covdata textfmt -i=$d/cov -o=$d/cov.txt 2>/dev/null
   grep -v "verifharness" $d/cov.txt > $d/cov2.txt
   (cd /repo && go tool cover -func=$d/cov2.txt) > .work/cover/$id.func
-  rm -rf $d
+  cp $d/cov2.txt .work/cover/$id.prof; rm -rf $d
 done
